@@ -98,3 +98,29 @@ Definition collapse_ok_tips (cr : crit) (t g : utree) : option string :=
   | Some m => Some ("with --tips: " ++ m)
   | None => None
   end.
+
+(** ** resolve on inputs that contain single-child inner nodes ("for resolve all trees"): such nodes
+    stay as they are (Resolve only touches nodes with more than 3 neighbours) and none is created;
+    every node ends with at most 3 neighbours, so every inner node other than the single-child ones
+    is binary; the input's splits are kept with their (merged) length and support, added branches
+    have length 0 and no support, distances are kept *)
+Fixpoint count_single_sub (t : utree) : nat :=
+  match t with
+  | UNode _ _ sl =>
+    (if Nat.eqb (length sl) 2 then 1 else 0) +
+    fold_right (fun s acc => match s with Some (_, c) => count_single_sub c + acc | None => acc end) 0 sl
+  end.
+Definition count_single (t : utree) : nat :=
+  fold_right (fun p acc => count_single_sub (snd p) + acc) 0 (kids t).
+
+Definition resolve_ok_single (t g : utree) : option string :=
+  if negb (wf g) then Some "result is not a well-formed rooted structure"
+  else if negb (sset_eqb (ssort (leaves t)) (ssort (leaves g))) then Some "tip names changed"
+  else if negb (forallb (fun x => Nat.leb (degree x) 3) (nodes g) && Nat.leb 2 (degree g))
+       then Some "a node keeps more than three neighbours"
+  else if negb (Nat.eqb (count_single g) (count_single t)) then Some "the number of single-child inner nodes changed"
+  else if negb (splits_sub same_len_sup (usplits t) (usplits g)) then Some "an original split is missing or changed its length or support"
+  else if negb (forallb (fun s => qeqb (slen s) 0%Q && qeqb (ssup s) nilv) (added_splits t g))
+       then Some "an added branch has a non-zero length or a support"
+  else if negb (matrix_eqb (dist_matrix len0 t) (dist_matrix len0 g)) then Some "a tip-to-tip distance changed"
+  else None.
